@@ -112,6 +112,39 @@ class Ctx:
                     r.discharged += 1
                     self.findings = [f for f in self.findings if not (f.rule == r.id and f.construct == inst["construct"])]
 
+    def guarded(self, r, structural_fn, witness, label, where=""):
+        """Run one structural rule function into rule r; an exception inside it (vanished anchor, unrecognised shape) or violations are
+        overridden only if the witness evaluation (n, diffs, unsupported) was possible and agrees with the property on every row.
+        Differences found by the witness are reported by the rule that owns the witness, not here."""
+        tmp = Rule(self, r.id, r.title, detached=True)
+        crashed = None
+        try:
+            res = structural_fn(self, tmp)
+        except Exception as exc:  # AnalysisError included
+            crashed = exc
+            res = None
+        n, diffs, unsupported = witness
+        bad = [i for i in tmp.instances if i["verdict"] == "VIOLATION"]
+        decided = unsupported is None and not diffs
+        if (bad or crashed is not None) and decided:
+            for i in tmp.instances:
+                if i["verdict"] == "ok":
+                    r.ok(i["construct"], i["detail"], i["where"])
+            why = f"{type(crashed).__name__}: {crashed}" if crashed is not None else bad[0]["detail"]
+            r.ok(f"{label}::witnesses", f"code shape not recognised by the structural rule ({str(why)[:80]}...); decided by {n} witness evaluations of {label}", where)
+            r.min_instances = min(r.min_instances, 1)
+            return res
+        if crashed is not None:
+            raise crashed
+        for i in tmp.instances:
+            if i["verdict"] == "ok":
+                r.ok(i["construct"], i["detail"], i["where"])
+            elif i["verdict"] == "VIOLATION":
+                r.violation(i["construct"], i["detail"], i["where"])
+            else:
+                r.info(i["construct"], i["detail"], i["where"])
+        return res
+
     def structural_or_witness(self, r, structural_fn, witness_fn, label, both=False):
         """Run a structural rule; if it does not recognise the code, let branch-covering witness evaluation decide.
 
